@@ -1178,11 +1178,11 @@ impl Gen {
                 acc += p;
                 r < acc
             };
-            if pick(0.25) {
+            if pick(0.22) {
                 self.let_stmt(out);
-            } else if pick(0.2) {
+            } else if pick(0.17) {
                 self.assign_stmt(out);
-            } else if pick(self.cfg.print_rate) {
+            } else if pick(self.cfg.print_rate * 0.75) {
                 self.print_stmt(out);
             } else if depth > 0 && pick(0.1) {
                 self.if_stmt(out, depth);
@@ -1198,7 +1198,7 @@ impl Gen {
                 } else {
                     self.let_stmt(out);
                 }
-            } else if pick(0.08) {
+            } else if pick(0.05) {
                 self.jump_stmt(out);
             } else if depth > 0 && pick(0.04) {
                 let b = self.block(depth);
